@@ -93,10 +93,13 @@ def run_check(ctx, mod):
         except common.CoqEvalError as e:
             ctx.proof_broken.append('model evaluation failed: ' + _tail(str(e)))
         except Exception:
-            # a harness error must never pass silently, and is not a verdict about the code
+            # a harness error must never pass silently, and is not a verdict about the code; violations already
+            # found on concrete inputs before the error are still reported (below)
             sys.stdout.write('HARNESS-ERROR property=%s\n%s\n' % (pid, traceback.format_exc()))
-            write_evidence(ctx, harness_error=traceback.format_exc()[-800:])
-            return 2
+            ctx.notes.append('harness error: ' + traceback.format_exc()[-600:])
+            if not [v for v in ctx.violations if not v.get('no_input')]:
+                write_evidence(ctx, harness_error=traceback.format_exc()[-800:])
+                return 2
     # 6. decide
     if ctx.tier == 'thorough' and not ctx.proof_broken and os.environ.get('VERIF_COQCHK', '1') == '1':
         t = time.time()
